@@ -166,5 +166,16 @@ PROPS["C13"]["rule"] += " | one step in six: the content arrives by copy assignm
 PROPS["C15"]["rule"] += " | one run in four decodes under a global C++ locale with digit grouping and a decimal comma (faults_injected.hostile-global-locale)"
 PROPS["C19"]["rule"] += (" | cloned start (a third of the shared-workload runs): the workload is begun on the main thread, interrupted between two deliveries, and the "
                          "threads continue on COPIES of one prototype's decoder / encoders / tracker (probe cloned-start)")
+for _p in ("C02", "C04", "C15", "C17", "C18"):
+    PROPS[_p]["rule"] += (" | a third of the runs: frames DERIVED from the comparison operands of the decode calls (library compiled with trace-cmp; where the observed operand of a "
+                          "comparison with a constant is found in the delivered bytes, a copy of the frame spelling the constant is queued; a compared buffer size yields the frame "
+                          "resized to it; 3 generations, 48 per run; faults_injected.frame-derived-from-comparison-operands)")
+for _p in ("C01", "C02", "C04", "C05", "C07", "C08", "C09", "C10", "C13", "C15", "C16", "C17", "C18"):
+    PROPS[_p]["rule"] += (" | one run in five: 1-3 plan fields set to an integer literal found in the sources of the tree under test (build.sh -> lib/literals.txt; "
+                          "faults_injected.plan-field-set-to-a-source-literal); one delivery in four at an unaligned buffer address")
+PROPS["C19"]["rule"] += (" | second engine (phase instances, asan variant): the same workloads interleaved operation by operation on ONE thread in a seeded order, with neighbour "
+                         "instances decoding up to ~140000 frames at one seeded point (cfg nbflood); every workload's digest must equal the same workload run alone (inst.diverged); "
+                         "half of the scheduled runs share receive buffers of equal content between the threads (probe receive-buffer-shared-between-threads)")
+PROPS["C06"]["rule"] += " | one run in twelve: a crowd of 64-150 endpoints all mid-message when the faults hit (probe 64-or-more-endpoints-mid-message-at-once)"
 PROPS["C20"]["rule"] += (" | C20-only inputs: moved-from packets re-used after setPayload, Status updates with generic interface-status payloads shorter than "
                          "the class header; the tracker's final content is an output")
